@@ -1,7 +1,7 @@
 (* RunC09: probes of one policy under the four checkers; Policy.from_json on parsed properties. *)
 From Coq Require Import ZArith NArith List Bool String.
 From Vakt Require Import Base.PyMonad Base.PyVal Base.Show Model.Regex Model.Rules Model.Policy Model.Checkers
-     Model.Guard Model.RuleJson Harness.ShowModel Harness.RunGuard Harness.RunC10.
+     Model.Guard Model.RuleJson Model.PolicyDoc Harness.ShowModel Harness.RunGuard Harness.RunC10.
 Import ListNotations.
 Open Scope string_scope.
 
@@ -67,4 +67,18 @@ Definition run_pjson (c : RunC10.case) : string :=
   | Ok s =>
       let s' := fold_left try_setattr (RunC10.ops c) s in
       show_pstate (data_of s') ++ " / " ++ show_res show_pstate (from_props (data_of s'))
+  end.
+
+(* ---- the JSON document of a written policy (Model.PolicyDoc) ---- *)
+Definition run_pdoc (c : RunC10.case) : string :=
+  match ctor (cargs c) with
+  | Raise e => show_exn e
+  | Ok s =>
+      let w := data_of (fold_left try_setattr (RunC10.ops c) s) in
+      if canon_state w then
+        match policy_doc w with
+        | Some d => show_val d ++ " => " ++ show_res show_pstate (read_doc (state_depth w) d)
+        | None => "UNMODELLED"
+        end
+      else "UNMODELLED"
   end.
